@@ -46,7 +46,8 @@ Check(r) ==
   \cup Flag((r.mode = "server" /\ r.garbage = "none" /\ (~Supported(r) \/ ~KeyOK(r))) => (r.nmsgs = 0 /\ r.reset),
             "a_unsupported_or_bad_key_request_served")
   \* (b) a client-mode node answers nothing
-  \cup Flag(r.mode = "client" => (r.nmsgs = 0 /\ ~r.storedsender /\ r.storedval = ""), "b_client_mode_node_answered")
+  \cup Flag(r.mode = "client" => (r.nmsgs = 0 /\ ~r.storedsender /\ (r.storedval = "" \/ ("prerec" \in DOMAIN r /\ r.prerec /\ r.storedval = "V2"))),
+            "b_client_mode_node_answered")
   \* (c) closer peers
   \cup (IF r.nmsgs = 1 /\ r.rtype \in {"GET_VALUE", "GET_PROVIDERS", "FIND_NODE"}
         THEN LET B == Body(r)
@@ -79,7 +80,9 @@ Check(r) ==
   \cup Flag(r.storedsender <=> (r.typ = "ADD_PROVIDER" /\ Serving(r) /\ r.provs /\ r.keylen >= 1 /\ r.keylen <= 80 /\ r.anyvalident),
             "f_add_provider_acceptance_rule")
   \* PUT_VALUE stores exactly the valid record filed under the message key
-  \cup Flag((r.storedval # "") <=> (r.typ = "PUT_VALUE" /\ Serving(r) /\ r.values /\ r.keylen >= 1 /\ r.rec = "match"),
+  \* (or, when the node already held a better record, still holds that one)
+  \cup Flag(IF "prerec" \in DOMAIN r /\ r.prerec THEN r.storedval = "V2"
+            ELSE (r.storedval # "") <=> (r.typ = "PUT_VALUE" /\ Serving(r) /\ r.values /\ r.keylen >= 1 /\ r.rec = "match"),
             "g_put_value_acceptance_rule")
 
 Case == l <= NLines /\ Ev.e = "Case" /\ Step([s EXCEPT !.viol = @ \cup Check(Ev)])
